@@ -36,10 +36,66 @@ def _(c):
     c.callee("unite_values", lambda k: (k.param("*values", "tuple"), k.returns("val"), setattr(k, "functional", True), setattr(k, "fn_name", "unite_values")))
     c.raises("AssertionError", when="len(any_rets) == 0 and len(union_and_any_rets) == 0 and len(union_rets) == 0 and clean_ret is None")
     c.loop(0, invariant="True")
+    c.assume("set de-duplication of return values is modelled by identity of the (canonically constructed) values")
     c.ensures("implies(len(any_rets) == 0 and len(union_and_any_rets) == 0 and len(union_rets) == 0 and clean_ret is not None,"
               " same(result, unite_values(clean_ret.return_value)))", name="a_clean_first_match_gives_its_return_type")
     c.ensures("implies((len(any_rets) > 0 or len(union_and_any_rets) > 0) and not (len(union_rets) == 0 and len(union_and_any_rets) == 0 and clean_ret is None"
-              " and all(any_rets[i].return_value == any_rets[0].return_value for i in range(len(any_rets)))),"
+              " and all(same(any_rets[i].return_value, any_rets[0].return_value) for i in range(len(any_rets)))),"
               " isa(result, AnyValue) and result.source is AnySource.multiple_overload_matches)", name="any_never_selects_one_overload_when_several_match")
     c.ensures("implies(len(any_rets) == 0 and len(union_and_any_rets) == 0 and len(union_rets) > 0 and clean_ret is None,"
               " same(result, unite_values(*[r.return_value for r in union_rets])))", name="a_union_argument_gives_the_union_of_the_member_results")
+
+
+def _ret_flags(c):
+    c.param("self", "val"); c.param("preprocessed", "val"); c.param("ctx", "val"); c.param("is_overload", "bool")
+    c.returns("val")
+    c.functional = True
+    c.fn_name = "check_call_preprocessed"
+
+
+CLEAN = "(not R.is_error and R.remaining_arguments is None and not R.used_any_for_match)"
+
+
+@contract("pyanalyze.signature.OverloadedSignature.check_call", props=P)
+def _(c):
+    c.param("args", "val")
+    c.returns("val")
+    c.record_calls += ["visitor.show_error"]
+    c.transparent_with += ["visitor.catch_errors"]
+    c.callee("_VisitorBasedContext", lambda k: (k.param("visitor", "val"), k.param("node", "val"), k.returns("val"), setattr(k, "functional", True)))
+    c.callee("self._make_detail", lambda k: (k.param("self", "val"), k.param("errors_per_overload", "val"), k.param("sigs", "val"), k.returns("val")))
+    c.callee("self._unite_rets", lambda k: (k.param("self", "val"), k.param("any_rets", "seq"), k.param("union_and_any_rets", "seq"), k.param("union_rets", "seq"),
+                                           k.param("clean_ret", "val"), k.param("visitor", "val"), k.param("node", "val"), k.returns("val"),
+                                           setattr(k, "functional", True), setattr(k, "fn_name", "_unite_rets")))
+    c.callee("itertools.chain.from_iterable", lambda k: (k.param("x", "val"), k.returns("seq")))
+    c.ignore_exceptions += ["KeyError"]
+    c.assume("records produced by visitor.catch_errors() carry the key 'error_code' (shape written by BaseNodeVisitor.show_error)")
+    c.let("ctx0", "_VisitorBasedContext(visitor, node)")
+    c.let("actual0", "preprocess_args(args, ctx0)")
+    c.assume("check_call_preprocessed / bind_arguments are pure in (signature, arguments, is_overload): the diagnostics they emit are caught by visitor.catch_errors()")
+    # loop 0: binding pass
+    c.loop(0, invariant=[("one_binding_result_per_signature", "len(bound_args_per_overload) == _k0 and all(same(bound_args_per_overload[j], self.signatures[j].bind_arguments(actual0, ctx0)) for j in range(_k0))")])
+    # loop 1: the resolution pass, under the hypothesis that no overload used Any or union decomposition
+    hyp = ("all(sigs[j].check_call_preprocessed(actual0, ctx0, is_overload=(j != last)).is_error or"
+           " (sigs[j].check_call_preprocessed(actual0, ctx0, is_overload=(j != last)).remaining_arguments is None and"
+           "  not sigs[j].check_call_preprocessed(actual0, ctx0, is_overload=(j != last)).used_any_for_match) for j in range(len(sigs)))")
+    c.loop(1, invariant=[("plain_case_state", f"implies({hyp}, same(actual_args, actual0) and len(any_rets) == 0 and len(union_rets) == 0 and len(union_and_any_rets) == 0"
+                                              " and all(sigs[j].check_call_preprocessed(actual0, ctx0, is_overload=(j != last)).is_error for j in range(_k1)))")])
+    c.loop(2, invariant="True")
+    c.ensures("implies(actual0 is not None and all(s.bind_arguments(actual0, ctx0) is None for s in self.signatures),"
+              " len(appended('visitor.show_error')) == 1 and isa(result, AnyValue) and result.source is AnySource.error)", name="no_binding_overload_is_diagnosed")
+    binding = "[s for s in self.signatures if s.bind_arguments(actual0, ctx0) is not None]"
+    plain = (f"all(R.is_error or (R.remaining_arguments is None and not R.used_any_for_match)"
+             f" for R in [({binding})[j].check_call_preprocessed(actual0, ctx0, is_overload=(j != len({binding}) - 1)) for j in range(len({binding}))])")
+    # `final('sigs')` is the kernel's own list of binding overloads at the return point (ghost access to a local): two
+    # separately written order-preserving filters cannot be proved equal without induction
+    RSJ = "final('sigs')[j].check_call_preprocessed(actual0, ctx0, is_overload=(j != len(final('sigs')) - 1))"
+    RSK = RSJ.replace("[j]", "[k]").replace("(j !=", "(k !=")
+    c.ensures("implies(final('sigs') is not None, all(s.bind_arguments(actual0, ctx0) is not None and exists(lambda i: 0 <= i and i < len(self.signatures) and same(s, self.signatures[i])) for s in final('sigs')))",
+              name="candidates_are_the_binding_overloads")
+    c.ensures(f"implies(actual0 is not None and final('sigs') is not None and all({RSJ}.is_error or ({RSJ}.remaining_arguments is None and not {RSJ}.used_any_for_match) for j in range(len(final('sigs')))),"
+              f" ite(all({RSJ}.is_error for j in range(len(final('sigs')))),"
+              "     len(appended('visitor.show_error')) == 1 and isa(result, AnyValue) and result.source is AnySource.error,"
+              f"     exists(lambda k: 0 <= k and k < len(final('sigs')) and not {RSK}.is_error and all({RSJ}.is_error for j in range(k))"
+              f"            and same(result, self._unite_rets([], [], [], {RSK}, visitor=visitor, node=node)) and len(appended('visitor.show_error')) == 0)))",
+              name="first_matching_overload_wins_and_error_iff_none")
